@@ -25,6 +25,10 @@ pub fn push(ev: J) {
 }
 
 pub fn emit_pull(c: Option<DecodedChar>) {
+	json_syntax::verif::emit(match c {
+		Some(c) => json_syntax::verif::Event::Mark(c.chr() as i64, c.len()),
+		None => json_syntax::verif::Event::Mark(-1, 0),
+	});
 	push(match c {
 		Some(c) => json!({"ev": "pull", "c": c.chr() as u32, "len": c.len()}),
 		None => json!({"ev": "pull", "c": -1, "len": 0}),
